@@ -858,7 +858,9 @@ def _parse_phase_numpydoc_and_google(
         name, param = interpolate_defaults(
             name_param,
             emit_default_doc=emit_default_doc,
-            require_default=_interpolate_defaults_and_force_future_default.require_default,
+            # (a class documents its return entry among its attributes: still not a parameter)
+            require_default=_interpolate_defaults_and_force_future_default.require_default
+            and name_param[0] != "return_type",
             default_search_announce=default_search_announce,
         )
         if (
